@@ -239,8 +239,9 @@ pub fn generate(seed: u64) -> C19Scn {
         };
         io.crash = crash.clone();
         events.push(Event::Tick(Tick { now: t, time: time.clone(), env: env.clone(), io, label: label.to_string() }));
-        if crash.is_some() && events.len() < n_events + 2 {
-            // the supervisor retries a run whose status it did not see
+        if crash.is_some() && events.len() < n_events + 2 && rng.chance(2, 3) {
+            // the supervisor retries a run whose status it did not see (not always: sometimes the
+            // next regular run is the first one after the crash)
             events.push(Event::Tick(Tick { now: t, time, env: env.clone(), io: gen_io(&mut rng), label: "retry".to_string() }));
         }
     }
